@@ -112,6 +112,7 @@ type Exec struct {
 	specLive    *State
 	havocLog    []havocRec
 	inTypeInv   bool
+	clauseHit   map[string]bool
 }
 
 type debugRef struct {
@@ -353,6 +354,9 @@ func (ex *Exec) load(st *State, loc *Loc) Value {
 		st.assume(Eq(UF("nulfree", SBool, id), UF("nulfree_region", SBool, inner.Arr(), inner.Off(), inner.Len())))
 		st.assume(Eq(UF("sview.arr", SInt, id), inner.Arr()))
 		st.assume(Eq(UF("sview.off", SInt, id), inner.Off()))
+		// the C string starting at (arr, off): defined when the view is NUL-free and followed by a NUL
+		term := st.mem(memName(tByte, ""), SInt).read(inner.Arr(), Add(inner.Off(), inner.Len()))
+		st.assume(Implies(And(Eq(term, Int(0)), UF("nulfree_region", SBool, inner.Arr(), inner.Off(), inner.Len())), Eq(UF("cstr", SInt, inner.Arr(), inner.Off()), id)))
 		return Value{T: loc.T, L: []*Term{id}}
 	case "whole":
 		// pointer to a whole heap struct object
@@ -485,7 +489,7 @@ func (ex *Exec) refsOf(fn *ssa.Function) map[string][]debugRef {
 			n++
 			if d, ok := ins.(*ssa.DebugRef); ok {
 				if obj := d.Object(); obj != nil {
-					if _, isVar := obj.(*types.Var); isVar {
+					if vv, isVar := obj.(*types.Var); isVar && !vv.IsField() {
 						r[obj.Name()] = append(r[obj.Name()], debugRef{val: d.X, isAddr: d.IsAddr, block: b, order: n})
 					}
 				}
